@@ -37,7 +37,7 @@ for c in CHECKS:
         "engine": "lean-model+correspondence",
         "level_claimed": {"category": "proof", "text": c["text"], "design_ref": c.get("design_ref", f"DESIGN.md §6 {pid}")},
         "level_note": c["note"],
-        "technique": c.get("technique", ""Lean 4 theorems over a hand-written executable model + differential correspondence check against /repo"),
+        "technique": c.get("technique", "Lean 4 theorems over a hand-written executable model + differential correspondence check against /repo"),
     })
 json.dump(m, open(os.path.join(HERE, 'MANIFEST.json'), 'w'), indent=1)
 print("MANIFEST.json:", len(m["checks"]), "checks,", len(NOT_APPLICABLE), "not_applicable")
